@@ -216,6 +216,10 @@ def part_timer(facts, res, fields, fi):
                     st = o.state
                     if Mx.AND(st.pc, pre) == 0:
                         continue
+                    if o.kind == "panic":
+                        res.ob(False)
+                        res.finding("count|panic|%s" % o.info.get("kind"), "with no clock selected the timer update can panic (%s, line %s)" % (o.info.get("kind"), o.info.get("line")), witness(Mx.AND(st.pc, pre)))
+                        continue
                     nothing = o.kind == "return" and isinstance(o.value, Enum) and o.value.variant == models.OK and not st.eff \
                         and not any(bm.store_of(st, n).writes for n in bm.stores) and st.mem[TIMER_ROOT].fields[fi["state"]].bits == resid
                     res.ob(nothing)
